@@ -4,6 +4,7 @@ from __future__ import annotations
 import ast
 import re
 
+from ..core import AnalysisError
 from ..pymodel import package
 from ..valueflow import Flow, as_map, match, V, show, simp, walk
 
@@ -369,7 +370,12 @@ def _r2(ctx, pkg):
     if st is None:
         ctx.missing("R2", "allowed_species.setter", (NF, 0), "setter vanished")
         return
-    sfl = Flow(st, NF)
+    # (the setter is read with the helpers it may have been split into -- methods of the class, functions of the module -- put back)
+    try:
+        st_x = pkg.expanded("Network", "allowed_species.setter", keep=("add_reaction", "_add_reaction"))
+    except (AnalysisError, RecursionError):
+        st_x = st
+    sfl = Flow(st_x, NF)
     SETTER = "allowed_species.setter"
     SK = ("attr", SELF, "_skipped_reactions")
     STATE = ("reaction_list", "_skipped_reactions") + CACHES
@@ -405,6 +411,8 @@ def _r2(ctx, pkg):
             unread.append(f)                # a helper of the class: what it resets is not read here
         elif f.kind == "call" and f.value and f.value[0] == "call" and any(x == ("global", "setattr") for x in walk(f.value)):
             unread.append(f)
+        elif f.kind == "call" and f.value and f.value[0] == "call" and any(simp(a_) == SELF for a_ in tuple(f.value[2]) + tuple(v_ for _, v_ in f.value[3])):
+            unread.append(f)                # the network itself is handed to a function: what that does with it is not read here
     # by role: the snapshot is the list the re-adding loop iterates
     adds = [f for f in sfl.facts if f.kind == "call" and f.target in ("add_reaction", "_add_reaction") and f.value and f.value[0] == "meth" and simp(f.value[1]) == SELF]
     looped = [f for f in adds if f.loops]
